@@ -206,7 +206,7 @@ class SimOps:
             i3_idx = n.ins[3].index if len(n.ins) > 3 and n.ins[3] is not None else self.zero_idx
             kind = n.kind.lower()
             if kind == '__fork__':
-                if not strip_forks:
+                if not strip_forks or i0_idx == self.zero_idx:  # an undriven fork has no stem: its fanout lines carry the constant 0.
                     for o_line in n.outs:
                         if o_line is not None:
                             ops.append((BUF1, o_line.index, i0_idx, i1_idx, i2_idx, i3_idx, *a_ctrl[o_line]))
